@@ -464,6 +464,7 @@ func (c *Conn) Read(p []byte) (int, error) {
 		}
 		ch := h.wait
 		h.mu.Unlock()
+		zzsim.Blocking("net.Read.blocked")
 		<-ch
 		zzsim.W("net.Read.wake")
 	}
@@ -551,6 +552,7 @@ func (c *Conn) Write(p []byte) (int, error) {
 		}
 		ch := h.wait
 		h.mu.Unlock()
+		zzsim.Blocking("net.Write.blocked")
 		<-ch
 		zzsim.W("net.Write.wake")
 	}
